@@ -232,7 +232,7 @@ class LeaseCheckingCrawler(ShareCrawler):
             #  expired-or-not according to our configured age limit
             expired = False
             if self.mode == "age":
-                age_limit = original_expiration_time
+                age_limit = original_expiration_time - grant_renew_time
                 if self.override_lease_duration is not None:
                     age_limit = self.override_lease_duration
                 if age > age_limit:
